@@ -32,7 +32,11 @@ RULE = ("case kinds: smallm (cone, α, vi, vj), delta (cone, α, value set), cov
         "incl. 0 and values just outside the band around the exact distance), uncov (index sets), f1 (cone, α, "
         "value set, true Pareto set, predicted list = true/subset/superset/shuffled/empty/all/duplicates/random, "
         "ladder of ε incl. 0 and exact ties δ_k = ε), hv (botorch Hypervolume on subsets), hvmodel (the real "
-        "calculate_hypervolume_discrepancy_for_model on stub problem/model). Cones: integer-row cones "
+        "calculate_hypervolume_discrepancy_for_model on stub problem/model), history (ONE value set scored in "
+        "sequence under several cones, wide→narrow→wide or random with repeats, incl. N>m and integer-row cones, "
+        "several ε / predicted sets, interleaved with get_delta / get_smallmij / is_covered on the same arrays, "
+        "the array handed over as same object / copy / float32 / Fortran order / strided view: every answer "
+        "must be the model's answer for that call's own arguments). Cones: integer-row cones "
         "(harness/cones.py + scaled/flat ones) with dyadic value sets (float path exact, compared with ==) and "
         "the bundled orders with their real float W and solver α exported exactly (1e-12 / band). "
         "non-trivial = verdict not fixed by the shape (a positive gap and a zero gap both present; ε-ladder "
@@ -413,6 +417,76 @@ def gen(ctx):
                "model": rng.choice(["exact", "shift", "swap", "noisy"]),
                "shift": [core.dyadic(rng, -4, 4, 2) for _ in range(4)]}
 
+    # ---- HISTORY: one value set scored under a sequence of cones in one process
+    for _ in range(ctx.n(14, 500)):
+        yield gen_history(ctx)
+
+
+# cones usable on one data set of dimension m, with a rough "width" rank (larger = wider cone)
+HISTORY_CONES = {
+    2: {"obtuse2": 5, "theta135": 5, "theta120": 4, "orthant2": 3, "comp2": 3, "theta90": 3, "redundant2": 3,
+        "scaled2": 3, "skew2": 2, "skewscaled2": 2, "theta60": 1, "acute2": 1, "threefacet2": 1, "theta45": 0},
+    3: {"obtuse3": 3, "obtuse3d": 3, "orthant3": 2, "comp3": 2, "right3d": 2, "scaled3": 2, "fourfacet3": 1,
+        "pyramid3": 1, "ice45_6": 1, "acute3": 0, "acute3d": 0, "ice30_4": 0},
+}
+LAYOUTS = ["same", "copy", "f32", "fortran", "view"]
+
+
+def gen_history(ctx):
+    rng = ctx.rng
+    m = rng.choice([2, 2, 3])
+    pool = HISTORY_CONES[m]
+    names = rng.sample(sorted(pool), rng.randint(2, 4))
+    mode = rng.choice(["wide-narrow-wide", "narrow-wide-narrow", "random"])
+    if mode == "wide-narrow-wide":
+        names.sort(key=lambda c: -pool[c])
+    elif mode == "narrow-wide-narrow":
+        names.sort(key=lambda c: pool[c])
+    n = rng.randint(3, 9)
+    W0 = cone_info(names[0])[0]
+    shape, mu = value_set(rng, W0, n, rng.choice([0, 1, 2]))
+    if shape in ("chain", "dominated") and rng.random() < 0.5:
+        mu = [lattice_vec(rng, m, 1) for _ in range(n)]
+    cones = []
+    for c in names:
+        W, real, exactW = cone_info(c)
+        alpha = list(real) if rng.random() < 0.7 else [2.0 ** rng.randint(-1, 1)] * len(W)
+        truth = sorted(int(i) for i in make_order(W, alpha).get_pareto_set(np.array(mu, dtype=float)))
+        a = ctx.ask("delta", core.qmat(mu), core.qmat(W), core.qvec(alpha))
+        ties = [float(q) for q in core.parse_qvec(a) if q > 0 and float(q) == q] if a != "ValueError" else []
+        cones.append({"name": c, "W": W, "alpha": alpha, "exactW": exactW, "truth": truth, "ties": ties})
+    seq = list(range(len(cones)))
+    seq = seq + seq[::-1] if mode != "random" else [rng.randrange(len(cones)) for _ in range(2 * len(cones) + 1)]
+    steps = []
+    for c in seq:
+        truth = cones[c]["truth"]
+        preds = [list(truth)]
+        extra = rng.choice(["all", "subset", "random", "shuffled"])
+        if extra == "all":
+            preds.append(list(range(n)))
+        elif extra == "subset":
+            preds.append([i for i in truth if rng.random() < 0.6])
+        elif extra == "shuffled":
+            q = list(truth)
+            rng.shuffle(q)
+            preds.append(q)
+        else:
+            preds.append(sorted({rng.randrange(n) for _ in range(rng.randint(1, n))}))
+        ladder = sorted({0.0, core.dyadic(rng, 0, 12, 2)} | set(rng.sample(cones[c]["ties"], min(1, len(cones[c]["ties"])))))
+        for pred in preds:
+            for eps in ladder if pred is preds[-1] else ladder[:1 + (rng.random() < 0.5)]:
+                steps.append({"op": "f1", "c": c, "pred": pred, "eps": eps, "layout": rng.choice(LAYOUTS)})
+        for _ in range(rng.randint(0, 2)):
+            op = rng.choice(["delta", "smallm", "cover"])
+            st = {"op": op, "c": c, "layout": rng.choice(LAYOUTS)}
+            if op != "delta":
+                st["i"], st["j"] = rng.randrange(n), rng.randrange(n)
+            if op == "cover":
+                st["eps"] = rng.choice([0.0, 0.5, 1.0, core.dyadic(rng, 0, 24, 2)])
+            steps.append(st)
+    return {"kind": "history", "cone": "history%dd" % m, "mode": mode, "mu": mu,
+            "cones": [{k: v for k, v in c.items() if k != "ties"} for c in cones], "steps": steps}
+
 
 # --------------------------------------------------------------------------------------------- run
 def run_case(ctx, case):
@@ -420,7 +494,7 @@ def run_case(ctx, case):
     ctx.count("kind_" + kind)
     ctx.count("cone_" + case["cone"])
     {"smallm": run_smallm, "delta": run_delta, "cover": run_cover, "uncov": run_uncov, "f1": run_f1,
-     "hv": run_hv, "hvmodel": run_hvmodel}[kind](ctx, case)
+     "hv": run_hv, "hvmodel": run_hvmodel, "history": run_history}[kind](ctx, case)
 
 
 def _classify_gap(ctx, case, what, got, spec: Fr, bro: Fr, exact, where):
@@ -783,6 +857,149 @@ def run_f1(ctx, case):
             _viol(ctx, "f1-monotone", "ε-F1 decreases as ε grows", case,
                           detail={"eps": [e1, e2], "values": [v1, v2]})
     ctx.case_done(case, nontrivial, canon=[W, alpha, case["mu"], truth, pred, case["eps"]])
+
+
+# --------------------------------------------------------------------------------------------- history
+def _layout(base, how):
+    """the same values handed over in another dtype / memory layout"""
+    n, m = base.shape
+    if how == "same":
+        return base
+    if how == "f32":
+        a = base.astype(np.float32)
+        if np.array_equal(a.astype(np.float64), base):
+            return a
+        how = "copy"
+    if how == "fortran":
+        return np.asfortranarray(base)
+    if how == "view":
+        big = np.full((2 * n + 1, m + 2), 7.25)
+        big[1::2, 1:m + 1] = base
+        return big[1::2, 1:m + 1]
+    return base.copy()
+
+
+def run_history(ctx, case):
+    """One value set, one process, a sequence of calls with different cones / ε / predictions / layouts:
+    every answer must equal the model's answer for that call's own arguments."""
+    from vopy.utils import get_delta, get_smallmij, is_covered
+    from vopy.utils.evaluate import calculate_epsilonF1_score
+
+    base = np.array(case["mu"], dtype=float)
+    ref = base.copy()
+    n = len(base)
+    cones = case["cones"]
+    orders = [make_order(c["W"], c["alpha"]) for c in cones]
+    qmu = core.qmat(base)
+    deltas, tabs = {}, {}
+    ctx.count("history_mode_" + case["mode"])
+
+    def delta_of(c):
+        if c not in deltas:
+            a = ctx.ask("delta", qmu, core.qmat(cones[c]["W"]), core.qvec(cones[c]["alpha"]))
+            deltas[c] = core.parse_qvec(a)
+        return deltas[c]
+
+    def d2_of(c, i, j):
+        if (c, i, j) not in tabs:
+            tabs[(c, i, j)] = ask_dist2(ctx, case["mu"][i], case["mu"][j], cones[c]["W"])
+        return tabs[(c, i, j)]
+
+    seen = {}      # identical call -> first answer
+    series = {}    # (cone, pred) -> [(eps, value)]
+    nontrivial = False
+    for k, st in enumerate(case["steps"]):
+        c = st["c"]
+        cone, order = cones[c], orders[c]
+        W = np.array(cone["W"], dtype=float)
+        acol = np.array(cone["alpha"], dtype=float).reshape(-1, 1)
+        arr = _layout(base, st["layout"])
+        ctx.count("history_step_" + st["op"])
+        ctx.count("history_layout_" + st["layout"])
+        where = {"step": k, "op": st["op"], "cone": cone["name"], "layout": st["layout"],
+                 "cones_before": [cones[t["c"]]["name"] for t in case["steps"][:k]][-6:]}
+        if st["op"] == "f1":
+            truth, pred, eps = cone["truth"], st["pred"], st["eps"]
+            ds = delta_of(c)
+            missed = sorted(set(truth) - set(pred))
+            pairs = [d2_of(c, i, j) for i in missed for j in set(pred)]
+            robust = (all(d is not None and cover_band(d, F(eps), NEAR) is not None for d in pairs)
+                      and _gap_robust(ds, pred, F(eps), cone["exactW"]))
+            if not robust:
+                ctx.count("history_f1_borderline_skipped")
+                continue
+            model = ctx.ask("f1", qmu, core.qmat(cone["W"]), core.qvec(cone["alpha"]), core.nats(truth),
+                            core.nats(pred), core.q(eps))
+            if model == "unknown":
+                ctx.count("history_inconclusive")
+                continue
+            r = call(calculate_epsilonF1_score, _DS(arr), order, list(truth), list(pred), eps)
+            if r[0] == "exc":
+                _viol(ctx, "f1-history", "calculate_epsilonF1_score raised in a sequence of calls on one value set",
+                      case, detail={**where, "exc": r[1]})
+                continue
+            val = float(r[1])
+            ctx.count("history_f1_compared")
+            ok = (val != val) if model == "nan" else (val == val and val == float(Fr(model)))
+            if not ok:
+                _viol(ctx, "f1-history", "calculate_epsilonF1_score differs from the score of THIS call's cone / "
+                      "ε / prediction (geometric gaps + ε-coverage): the result depends on earlier calls or on "
+                      "the dtype / memory layout of out_data", case,
+                      detail={**where, "eps": eps, "pred": pred, "code": val, "model": model})
+            if val == val and not (0.0 <= val <= 1.0):
+                _viol(ctx, "f1-history", "ε-F1 outside [0,1] in a sequence of calls", case, detail={**where, "code": val})
+            if truth and sorted(pred) == sorted(truth) and eps >= 0 and val != 1.0:
+                _viol(ctx, "f1-history", "ε-F1 of the true Pareto set of the cone in use is not 1 (in a sequence of "
+                      "calls on one value set under several cones)", case, detail={**where, "eps": eps, "code": val})
+            key = ("f1", c, tuple(pred), eps)
+            if key in seen and not (seen[key] == val or (seen[key] != seen[key] and val != val)):
+                _viol(ctx, "f1-history", "the same call gives different scores at two points of the history", case,
+                      detail={**where, "first": seen[key], "now": val})
+            seen.setdefault(key, val)
+            series.setdefault((c, tuple(pred)), []).append((eps, val))
+            if model not in ("nan", "0", "1"):
+                nontrivial = True
+        elif st["op"] == "delta":
+            r = call(get_delta, arr, W, acol)
+            ds = delta_of(c)
+            if r[0] == "exc" or np.shape(r[1]) != (n, 1) or any(
+                    not same_value(np.ravel(r[1])[i], ds[i], cone["exactW"]) for i in range(n)):
+                _viol(ctx, "gap-history", "get_delta in a sequence of calls differs from the gaps of this call's "
+                      "cone (or depends on dtype / layout)", case,
+                      detail={**where, "code": str(r[1] if r[0] == "ok" else r[1])[:200], "model": [str(q) for q in ds]})
+        elif st["op"] == "smallm":
+            i, j = st["i"], st["j"]
+            r = call(get_smallmij, arr[i, :], arr[j, :], W, acol)
+            model = ctx.ask("smallm", core.qvec(base[i]), core.qvec(base[j]), core.qmat(cone["W"]),
+                            core.qvec(cone["alpha"]))
+            if r[0] == "exc" or not same_value(r[1], Fr(model), cone["exactW"]):
+                _viol(ctx, "gap-history", "get_smallmij in a sequence of calls differs from the gap formula for "
+                      "this call's arguments", case, detail={**where, "code": str(r[1]), "model": model})
+        else:
+            i, j, eps = st["i"], st["j"], st["eps"]
+            d2 = d2_of(c, i, j)
+            band = None if d2 is None else cover_band(d2, F(eps), NEAR)
+            if band is None:
+                ctx.count("history_cover_borderline")
+            else:
+                r = call(is_covered, arr[i, :], arr[j, :], eps, W)
+                if r[0] == "exc" or bool(r[1]) != band:
+                    _viol(ctx, "cover-history", "is_covered in a sequence of calls differs from the exact verdict "
+                          "for this call's arguments", case,
+                          detail={**where, "eps": eps, "code": str(r[1]), "dist2": str(d2)})
+        if not np.array_equal(base, ref):
+            _viol(ctx, "history-mutates-input", "a call changed the caller's value array", case, detail=where)
+            base[...] = ref
+    for (c, pred), vals in series.items():
+        vals = sorted(set(v for v in vals if v[1] == v[1]))
+        for (e1, v1), (e2, v2) in zip(vals, vals[1:]):
+            ctx.count("history_monotone_checked")
+            if e1 < e2 and v1 > v2:
+                _viol(ctx, "f1-history", "ε-F1 decreases as ε grows within a history", case,
+                      detail={"cone": cones[c]["name"], "pred": list(pred), "eps": [e1, e2], "values": [v1, v2]})
+    distinct_truth = len({tuple(c["truth"]) for c in cones}) > 1
+    ctx.count("history_pareto_sets_differ" if distinct_truth else "history_pareto_sets_equal")
+    ctx.case_done(case, nontrivial or distinct_truth, canon=[case["mu"], [c["name"] for c in cones], case["steps"]])
 
 
 # --------------------------------------------------------------------------------------------- hypervolume
